@@ -1649,12 +1649,19 @@ fn scenario_election(sc: &str) -> Result<Violations, String> {
     }
     let mut v: Violations = vec![];
     let forced = p[3] == "new";
-    let cand: u128 = if forced { 0 } else { p[3].parse().map_err(|_| "bad candidate")? };
+    // "war": an authenticated peer link tells this node `set-primary other:1` - a node that is the primary itself must call a NEW election (stand down to candidate, announce, then
+    // yield or claim again); any other node becomes that primary's secondary
+    let war = p[3] == "war";
+    let cand: u128 = if forced || war { 0 } else { p[3].parse().map_err(|_| "bad candidate")? };
+    let run = move |d: &Arc<Databases>| {
+        if war { let (mut peer, _prx) = Client::new_empty_and_receiver(); peer.auth.swap(true, std::sync::atomic::Ordering::Relaxed); process_request("set-primary other:1", d, &mut peer); }
+        else if forced { start_new_election(d); } else { election_eval(d, cand, &"other:1".to_string()); }
+    };
     let d2 = dbs.clone();
     let mut rep_seen: Vec<String> = vec![];
     let ok = if p[1] == "2r" {
         let d3 = dbs.clone();
-        let h = std::thread::spawn(move || catch_unwind(AssertUnwindSafe(|| { if forced { start_new_election(&d3); } else { election_eval(&d3, cand, &"other:1".to_string()); } })).is_ok());
+        let h = std::thread::spawn(move || catch_unwind(AssertUnwindSafe(|| run(&d3))).is_ok());
         for _ in 0..400 {
             std::thread::sleep(std::time::Duration::from_millis(1));
             for m in drain(&mut rep) {
@@ -1666,14 +1673,24 @@ fn scenario_election(sc: &str) -> Result<Violations, String> {
         }
         h.join().unwrap_or(false)
     } else {
-        catch_unwind(AssertUnwindSafe(|| { if forced { start_new_election(&d2); } else { election_eval(&d2, cand, &"other:1".to_string()); } })).is_ok()
+        catch_unwind(AssertUnwindSafe(|| run(&d2))).is_ok()
     };
     if !ok { v.push("C10.safety".into()); return Ok(v); }
     let sup_msgs = drain(&mut sup); let mut rep_msgs = rep_seen; rep_msgs.extend(drain(&mut rep));
     let role = dbs.get_role();
     let candidacies = rep_msgs.iter().filter(|m| m.contains("election candidate")).count();
     let alive = rep_msgs.iter().filter(|m| m.contains("election alive")).count();
-    if forced || cand > own {
+    if war {
+        if role0 == ClusterRole::Primary {
+            // two primaries: this one does not yield silently and does not sit on its claim either - it stands again (one candidacy when it has peers) and ends as a secondary or
+            // with a fresh claim its supervisor broadcasts (that `set-primary` is what re-aligns the nodes that took the other claim for granted)
+            if members > 1 || p[1] == "2r" { chk(&mut v, "C07.two-primaries-start-an-election", candidacies == 1); }
+            chk(&mut v, "C07.two-primaries-start-an-election", role == ClusterRole::Secoundary || sup_msgs.iter().any(|m| m == "election-win self"));
+            chk(&mut v, "C07.election-decides", role != ClusterRole::StartingUp);
+        } else {
+            chk(&mut v, "C07.told-primary-is-secondary", role == ClusterRole::Secoundary && sup_msgs.iter().any(|m| m == "primary other:1") && candidacies == 0);
+        }
+    } else if forced || cand > own {
         // the node stands: alone it is Primary at once, otherwise it announces exactly one candidacy carrying its start time, and it never stays undecided
         if members == 1 { chk(&mut v, "C07.single-node-wins", role == ClusterRole::Primary && candidacies == 0); }
         else { chk(&mut v, "C07.candidacy-announced", candidacies == 1 && rep_msgs.iter().any(|m| m.contains(&format!("election candidate {} ext:1", own)))); }
@@ -1689,7 +1706,7 @@ fn scenario_election(sc: &str) -> Result<Violations, String> {
 fn all_election_scenarios() -> Vec<String> {
     let mut out = vec![];
     for r in ["s", "p", "c"] { for m in ["1", "2", "2r"] { for own in ["5", "1000", "340282366920938463463374607431768211455"] {
-        for c in ["4", "5", "6", "0", "999", "1000", "1001", "340282366920938463463374607431768211454", "340282366920938463463374607431768211455", "new"] {
+        for c in ["4", "5", "6", "0", "999", "1000", "1001", "340282366920938463463374607431768211454", "340282366920938463463374607431768211455", "new", "war"] {
             out.push(format!("{}.{}.{}.{}", r, m, own, c)); } } } }
     out
 }
